@@ -9,7 +9,7 @@ from simkit.progs import ALL_FEATURES, HEADER, Gen, GenConfig, RawProgram
 from simkit.runner import RunOutcome
 
 
-def gen_twin_program(ch: Choices) -> RawProgram:
+def gen_twin_program(ch: Choices, p_raise: float = 0.2) -> RawProgram:
     """
     Targeted family: the same few leaf calls reached directly, through delay chains (so that
     they arrive before / while / after their twin runs), through wrappers that opt out
@@ -32,7 +32,7 @@ def gen_twin_program(ch: Choices) -> RawProgram:
             # be served by CSE
             opts.append(["cache=False", "cache_scope='CSE'"][ch.choice(2, "leaf-cse-kind")])
         body = f"    hit('leaf{i}', x)\n"
-        if ch.coin(0.2, "leaf-raises"):
+        if ch.coin(p_raise, "leaf-raises"):
             body += f"    raise ValueError('boom-leaf{i}')\n"
         L.append(f"@task({', '.join(opts)})\ndef leaf{i}(x):\n{body}    return mix('leaf{i}', x)\n\n")
     L.append("@task()\ndef delay(x):\n    return x\n\n")
